@@ -1220,6 +1220,79 @@ def _inline_expression_helpers(trees):
         ast.fix_missing_locations(t)
 
 
+def _inline_index_properties(trees):
+    """A read-only property that names one slot of a list attribute - `return self.<attr>[<int>]` or `self.<attr>[<slice>]` -
+    is that slot: inside the class and its subclasses `self.p` reads as `self.<attr>[k]` (and `self.<attr>[:n][k]` as
+    `self.<attr>[k]`).  Not applied when the property has a setter, is overridden or shadowed anywhere in the class
+    family, or `self.p` is ever stored."""
+    import copy as _copy
+
+    class_defs = {}
+    for t in trees:
+        for c in ast.walk(t):
+            if isinstance(c, ast.ClassDef):
+                class_defs.setdefault(c.name, []).append(c)
+
+    def simple_index(e):
+        if not (isinstance(e, ast.Subscript) and isinstance(e.value, ast.Attribute) and isinstance(e.value.value, ast.Name) and e.value.value.id == "self"):
+            return False
+        s = e.slice
+
+        def integer(x):
+            return x is None or (isinstance(x, ast.Constant) and isinstance(x.value, int) and not isinstance(x.value, bool)) or (isinstance(x, ast.UnaryOp) and isinstance(x.op, ast.USub) and integer(x.operand))
+
+        return integer(s) if not isinstance(s, ast.Slice) else (integer(s.lower) and integer(s.upper) and s.step is None)
+
+    for cname, cs in class_defs.items():
+        if len(cs) != 1:
+            continue
+        c = cs[0]
+        family = [c] + [k for n, ks in class_defs.items() for k in ks if cname in _ancestors(n, class_defs)]
+        above = [k for a in _ancestors(cname, class_defs) for k in class_defs.get(a, [])]
+        for m in list(c.body):
+            if not (isinstance(m, ast.FunctionDef) and len(m.decorator_list) == 1 and isinstance(m.decorator_list[0], ast.Name) and m.decorator_list[0].id == "property"):
+                continue
+            body = [s for s in m.body if not (isinstance(s, ast.Expr) and isinstance(s.value, ast.Constant) and isinstance(s.value.value, str))]
+            if len(body) != 1 or not isinstance(body[0], ast.Return) or body[0].value is None or not simple_index(body[0].value):
+                continue
+            nm = m.name
+            clash = False
+            for k in family + above:
+                for x in k.body:
+                    if x is not m and isinstance(x, (ast.FunctionDef, ast.AsyncFunctionDef)) and x.name == nm:
+                        clash = True
+                    if isinstance(x, (ast.Assign, ast.AnnAssign)) and any(isinstance(t_, ast.Name) and t_.id == nm for t_ in (x.targets if isinstance(x, ast.Assign) else [x.target])):
+                        clash = True
+                for x in ast.walk(k):
+                    if isinstance(x, ast.Attribute) and x.attr == nm and isinstance(x.ctx, (ast.Store, ast.Del)):
+                        clash = True
+                    if isinstance(x, ast.Call) and isinstance(x.func, ast.Name) and x.func.id in ("setattr", "delattr"):
+                        clash = True
+            if clash:
+                continue
+            expr = body[0].value
+
+            class R(ast.NodeTransformer):
+                def visit_Attribute(self, n_):
+                    self.generic_visit(n_)
+                    if n_.attr == nm and isinstance(n_.ctx, ast.Load) and isinstance(n_.value, ast.Name) and n_.value.id == "self":
+                        return ast.copy_location(_copy.deepcopy(expr), n_)
+                    return n_
+
+            for k in family:
+                for x in k.body:
+                    if isinstance(x, (ast.FunctionDef, ast.AsyncFunctionDef)) and x is not m and x.args.args and x.args.args[0].arg == "self":
+                        R().visit(x)
+    # self.a[:n][k] -> self.a[k]   (0 <= k < n)
+    for t in trees:
+        for n_ in ast.walk(t):
+            if isinstance(n_, ast.Subscript) and isinstance(n_.slice, ast.Constant) and isinstance(n_.slice.value, int) and not isinstance(n_.slice.value, bool) and isinstance(n_.value, ast.Subscript) and isinstance(n_.value.slice, ast.Slice):
+                sl = n_.value.slice
+                if sl.lower is None and sl.step is None and isinstance(sl.upper, ast.Constant) and isinstance(sl.upper.value, int) and 0 <= n_.slice.value < sl.upper.value:
+                    n_.value = n_.value.value
+        ast.fix_missing_locations(t)
+
+
 def _flatten_mixins(trees):
     """A private helper base class (name starts with `_`, no rule names it, no bases of its own beyond object / ABC,
     no `__init__`, used as a base by exactly one class of the package and referenced nowhere else) is merged into that
@@ -1339,6 +1412,7 @@ class Program:
             _inline_helpers([t[4] for t in parsed])
             _inline_module_helpers([t[4] for t in parsed])
             _inline_expression_helpers([t[4] for t in parsed])
+            _inline_index_properties([t[4] for t in parsed])
             _inline_helpers([t[4] for t in parsed])
         for modname, path, rel, source, tree, is_pkg in parsed:
             _normalise_syntax(tree)
